@@ -387,6 +387,30 @@ def check_compound(scale, rnd):
                     for n in names:
                         fh = cs.open_file(n)
                         out[(n, mm)] = fh.read()
+                        # the same member through sized reads, positioned reads and seeks (file-object protocol)
+                        fh2 = cs.open_file(n)
+                        chunks = []
+                        while True:
+                            c = fh2.read(5)
+                            if not c:
+                                break
+                            chunks.append(c)
+                            if len(chunks) > len(model[n]) + 5:
+                                break
+                        out[(n, mm, "chunked")] = b"".join(chunks)
+                        ln = len(model[n])
+                        if ln >= 4:
+                            fh2.seek(ln // 2)
+                            tail = fh2.read(ln)            # asks for more than is left
+                            fh2.seek(-3, 2)
+                            last3 = fh2.read()
+                            fh2.seek(1)
+                            fh2.seek(1, 1)
+                            two = fh2.read(2)
+                            if tail != model[n][ln // 2:] or last3 != model[n][-3:] or two != model[n][2:4] or fh2.tell() != 4:
+                                fail("C20-compound-seek-read", "member %r (mmap=%r): seek(%d)+read(%d) -> %d bytes (expected %d), seek(-3, 2)+read() "
+                                     "-> %r (expected %r), seek(1);seek(1,1);read(2) -> %r (expected %r), tell %r"
+                                     % (n, mm, ln // 2, ln, len(tail), ln - ln // 2, last3, model[n][-3:], two, model[n][2:4], fh2.tell()))
                         if cs.file_length(n) != len(model[n]):
                             fail("C20-compound-length", "file_length(%s) = %d expected %d" % (n, cs.file_length(n), len(model[n])))
                     cs.close()
@@ -396,7 +420,8 @@ def check_compound(scale, rnd):
                 return dict(((n, None), st.open_file("f_" + n).read()) for n in names)
         ok, out = guarded("C20-compound", go)
         if ok:
-            for (n, mm), data in out.items():
+            for key_, data in out.items():
+                n, mm = key_[0], key_[1]
                 if data != model[n]:
                     pos = next((i for i in range(min(len(data), len(model[n]))) if data[i] != model[n][i]), min(len(data), len(model[n])))
                     fail("C20-compound-bytes", "member %r (mmap=%r, buffersize=%d) differs at byte %d (len %d vs %d)"
